@@ -258,6 +258,12 @@ Proof.
   assert (0 <= Z.rem (r - 10) 3)%Z by (apply Z.rem_nonneg; lia). lia.
 Qed.
 
+Lemma emits_fill k : emits 0 (fill_spaces k) (repeat 32 k).
+Proof.
+  induction k as [|k IH]; cbn [fill_spaces repeat]; [apply emits_ok|].
+  change (32 :: repeat 32 k) with ([32] ++ repeat 32 k). apply emits_bind; [apply emits_byte|exact IH].
+Qed.
+
 Lemma byte_array_inside l name v : bytes_ok v -> inside l ->
   exists l', f_byte_array l name v = Ok l' /\ inside l'.
 Proof.
@@ -268,9 +274,9 @@ Proof.
     unfold f_byte_array.
     set (rem := (Z.of_nat BUFSZ - Z.of_nat (index l) - 1 - Z.of_nat (List.length name) - 2)%Z) in *.
     destruct (Z.leb_spec rem (Z.of_nat (List.length v) * 3)) as [_|C]; [|lia].
-    cbn [andb]. destruct (Z.ltb_spec rem 10) as [R10|R10].
+    cbn [andb]. destruct (Z.leb_spec rem 10) as [R10|R10].
     + exists l. split; [reflexivity|split; assumption].
-    + destruct (quot3_le rem R10) as [Q Q3].
+    + destruct (quot3_le rem ltac:(lia)) as [Q Q3].
       destruct (Z.ltb_spec (Z.quot (rem - 10) 3) 0) as [N|_]; [lia|].
       set (hi := Z.to_nat (Z.quot (rem - 10) 3)).
       set (l0 := mkLine (write_at (buf l) (BUFSZ - 10) TRUNCATED) (index l)).
@@ -289,13 +295,18 @@ Proof.
       rewrite !app_length, belems_len in I4. cbn [List.length] in I4.
       assert (I4' : (index l4 <= BUFSZ - 10)%nat).
       { rewrite I4. lia. }
-      assert (EB : exists lz, append_byte (match firstn hi v with [] => l4 | _ => dec_index l4 end) 93 = Ok lz /\ wf lz).
+      assert (EB : exists lz, append_byte (match firstn hi v with [] => l4 | _ => dec_index l4 end) 93 = Ok lz /\ wf lz /\ (index lz <= BUFSZ - 9)%nat).
       { destruct (firstn hi v).
-        - destruct (append_byte_inside l4 93 W4) as (lz & Rz & Wz & _); [unfold BUFSZ in *; lia|]. exists lz. auto.
-        - destruct (append_byte_inside (dec_index l4) 93) as (lz & Rz & Wz & _); [exact W4|unfold dec_index; cbn [index]; unfold BUFSZ in *; lia|].
-          exists lz. auto. }
-      destruct EB as (lz & Rz & Wz). rewrite Rz. cbn [bind].
-      eexists; split; [reflexivity|]. split; [exact Wz|]. cbn [index]. lia.
+        - destruct (run_emits _ _ l4 (emits_byte 0 93) W4) as (lz & Rz & Wz & Jz); [cbn [List.length]; unfold BUFSZ in *; lia|].
+          exists lz. split; [exact Rz|]. split; [exact Wz|]. rewrite Jz. cbn [List.length]. unfold BUFSZ in *. lia.
+        - destruct (run_emits _ _ (dec_index l4) (emits_byte 0 93) W4) as (lz & Rz & Wz & Jz);
+            [unfold dec_index; cbn [index List.length]; unfold BUFSZ in *; lia|].
+          exists lz. split; [exact Rz|]. split; [exact Wz|]. rewrite Jz. unfold dec_index. cbn [index List.length]. unfold BUFSZ in *. lia. }
+      destruct EB as (lz & Rz & Wz & Iz). rewrite Rz. cbn [bind].
+      destruct (run_emits _ _ lz (emits_fill (BUFSZ - 10 - index lz)) Wz) as (lf & Rf & Wf & _).
+      { rewrite repeat_length. unfold BUFSZ in *. lia. }
+      rewrite Rf. cbn [bind].
+      eexists; split; [reflexivity|]. split; [exact Wf|]. cbn [index]. unfold BUFSZ. lia.
   - (* it fits: the rendering theorem applies *)
     assert (F : op_fits (index l) (OByteArr name v) = true).
     { unfold op_fits. cbn [spec_text]. unfold fld, bytearr_text. destruct v as [|a r].
